@@ -75,31 +75,17 @@ Theorem C12_sum_site_independent : forall (h : Z -> Z) rs total order,
 Proof. exact sum_site_independent. Qed.
 Print Assumptions C12_sum_site_independent.
 
-(** The full statement "which algorithm runs never depends on the CPU count"
-    ([algorithm_choice_independent]) is FALSE of the pinned code at two sites. *)
-Theorem C12_algorithm_choice_independent_refuted : ~ algorithm_choice_independent.
-Proof. exact algorithm_choice_independent_refuted. Qed.
-Print Assumptions C12_algorithm_choice_independent_refuted.
+(** Which algorithm runs never depends on the CPU count (after the fixes of
+    lossy EncodeFrame.useParallel and lossless hashchain.Fill). *)
+Theorem C12_algorithm_choice_independent : algorithm_choice_independent.
+Proof. exact algorithm_choice_independent_holds. Qed.
+Print Assumptions C12_algorithm_choice_independent.
 
-Theorem C12_algorithm_choice_hashchain_refuted :
-  exists n1 n2 size, 1 <= n1 /\ 1 <= n2 /\
-    hashchain_uses_parallel n1 size false <> hashchain_uses_parallel n2 size false.
-Proof. exact algorithm_choice_hashchain_refuted. Qed.
-Print Assumptions C12_algorithm_choice_hashchain_refuted.
-
-Theorem C12_algorithm_choice_encodeframe_refuted :
-  exists n1 n2 mbH method, 1 <= n1 /\ 1 <= n2 /\
-    encodeframe_uses_parallel n1 mbH method false <> encodeframe_uses_parallel n2 mbH method false.
-Proof. exact algorithm_choice_encodeframe_refuted. Qed.
-Print Assumptions C12_algorithm_choice_encodeframe_refuted.
-
-(** For every n >= 2 the pinned selection equals the CPU-independent one (by size /
-    method only), i.e. only the step 1 -> 2 changes the algorithm. *)
-Theorem C12_algorithm_choice_agrees_above_one : forall n, 2 <= n ->
+Theorem C12_algorithm_choice_is_by_size_and_method : forall n,
   (forall size lowEffort, hashchain_uses_parallel n size lowEffort = hashchain_uses_parallel_fixed size lowEffort) /\
   (forall mbH method doSearch, encodeframe_uses_parallel n mbH method doSearch = encodeframe_uses_parallel_fixed mbH method doSearch).
-Proof. exact algorithm_choice_agrees_above_one. Qed.
-Print Assumptions C12_algorithm_choice_agrees_above_one.
+Proof. exact algorithm_choice_is_by_size_and_method. Qed.
+Print Assumptions C12_algorithm_choice_is_by_size_and_method.
 
 (** Tie to the source (regenerated on every run): every read of the CPU count and
     every [go] statement of the library is one of the modelled sites, and every such
